@@ -348,3 +348,92 @@ Proof.
   destruct (stack_off (d_cc t) <=? usize_max); cbn [bind] in H; [|discriminate].
   congruence.
 Qed.
+
+(* CStackStride: the check also compares the dumped answers [d_argtypes] with the table, so its converse needs the
+   tie of those answers to the model ([queries_tie], checked each run) besides the statement; the word size must be
+   a whole number of bytes (32 or 64 in the five ABIs) and the second stack slot must fit a usize *)
+Lemma argument_type_expected c word i x :
+  stack_len c = word / 8 -> argument_type c i = Ok x ->
+  x = match nth_error (args c) i with
+      | Some r => LReg r
+      | None => LStack (stack_off c + Z.of_nat (i - List.length (args c)) * (word / 8))
+      end.
+Proof.
+  intros Hl H. unfold argument_type in H.
+  destruct (Nat.leb_spec (List.length (args c)) i) as [Hle|Hlt].
+  - assert (Hn : nth_error (args c) i = None) by (apply nth_error_None; exact Hle). rewrite Hn.
+    unfold usz in H.
+    destruct (stack_len c * Z.of_nat (i - List.length (args c)) <=? usize_max); cbn [bind] in H; [|discriminate].
+    destruct (stack_off c + stack_len c * Z.of_nat (i - List.length (args c)) <=? usize_max); cbn [bind] in H;
+      [|discriminate].
+    inversion H. rewrite Hl. f_equal. f_equal. apply Z.mul_comm.
+  - destruct (nth_error (args c) i) as [r|] eqn:E.
+    + cbn in H. congruence.
+    + apply nth_error_None in E. lia.
+Qed.
+
+Lemma argtypes_expected c word (s : list nat) : forall l,
+  stack_len c = word / 8 ->
+  list_eqb res_loc_eqb (map (argument_type c) s) l = true ->
+  list_eqb loc_eqb l
+    (map (fun n => match nth_error (args c) n with
+                   | Some r => LReg r
+                   | None => LStack (stack_off c + Z.of_nat (n - List.length (args c)) * (word / 8))
+                   end) s) = true.
+Proof.
+  induction s as [|i s IH]; intros [|x l] Hl H; cbn in *; try discriminate; [reflexivity|].
+  apply andb_true_iff in H. destruct H as [H1 H2].
+  apply andb_true_iff. split; [|apply IH; assumption].
+  unfold res_loc_eqb in H1. destruct (argument_type c i) as [y| |] eqn:E; try discriminate.
+  apply loc_eqb_eq in H1. subst y. apply loc_eqb_eq.
+  exact (argument_type_expected c word i x Hl E).
+Qed.
+
+Theorem clause_complete_stack_stride (a : abi) (t : dump) :
+  C20_statement a t -> queries_tie t = true ->
+  a_word a mod 8 = 0 -> a_stack_base a + a_word a / 8 <= usize_max -> 0 <= a_word a / 8 ->
+  clause_ok a t CStackStride = true.
+Proof.
+  intros St Htie Hm Hb Hw8.
+  pose proof (st_word a t St) as Hword.
+  assert (Hb0 : a_stack_base a <= usize_max) by lia.
+  pose proof (clause_complete_stack_base a t St Hb0) as Hbase. cbn [clause_ok] in Hbase. apply Z.eqb_eq in Hbase.
+  pose proof (st_stack_argument a t St 1%nat) as H1.
+  rewrite Hword in H1. change (Z.of_nat 1) with 1 in H1. rewrite Z.mul_1_l in H1. specialize (H1 Hb).
+  assert (Hlen : stack_len (d_cc t) = a_word a / 8).
+  { unfold argument_type in H1.
+    destruct (Nat.leb_spec (List.length (args (d_cc t))) (List.length (args (d_cc t)) + 1)) as [_|Hc]; [|lia].
+    replace (List.length (args (d_cc t)) + 1 - List.length (args (d_cc t)))%nat with 1%nat in H1 by lia.
+    change (Z.of_nat 1) with 1 in H1. rewrite Z.mul_1_r in H1. unfold usz in H1.
+    destruct (stack_len (d_cc t) <=? usize_max); cbn [bind] in H1; [|discriminate].
+    destruct (stack_off (d_cc t) + stack_len (d_cc t) <=? usize_max); cbn [bind] in H1; [|discriminate].
+    inversion H1. lia. }
+  cbn [clause_ok]. rewrite Hword, Z.eqb_refl, Hlen.
+  assert (H8 : 8 * (a_word a / 8) = a_word a).
+  { pose proof (Z.div_mod (a_word a) 8 ltac:(lia)) as Hd. lia. }
+  rewrite H8, Z.eqb_refl. cbn [andb].
+  unfold queries_tie in Htie. repeat (apply andb_true_iff in Htie; destruct Htie as [Htie ?]).
+  unfold expected_argtypes. apply argtypes_expected; assumption.
+Qed.
+
+(* the five ABIs of CcSpec.v meet the side conditions *)
+Lemma abi_of_side n a : abi_of n = Some a ->
+  a_word a mod 8 = 0 /\ a_stack_base a + a_word a / 8 <= usize_max /\ 0 <= a_word a / 8.
+Proof.
+  intros Ha. unfold abi_of in Ha.
+  repeat match type of Ha with (if ?b then _ else _) = _ => destruct b end;
+    inversion Ha; subst a; vm_compute; repeat split; congruence.
+Qed.
+
+(* completeness of the whole checker (no false alarm): tables of a supported architecture that satisfy the
+   statement of C20, and whose dumped query answers are the model's ([queries_tie], a separate case of every
+   run), pass every clause check *)
+Theorem cc_ok_complete (t : dump) (a : abi) :
+  abi_of (d_name t) = Some a -> C20_statement a t -> queries_tie t = true -> cc_ok t = true.
+Proof.
+  intros Ha St Htie. unfold cc_ok. rewrite Ha. apply forallb_forall. intros k _.
+  destruct (abi_of_side _ _ Ha) as [Hm [Hb Hw]].
+  destruct k; try (apply clause_complete_partial; [exact St|cbn; tauto]).
+  - apply clause_complete_stack_stride; assumption.
+  - apply clause_complete_stack_base; [exact St|lia].
+Qed.
